@@ -854,12 +854,17 @@ class _UfuncShim:
         return reduce_axis(SCALAR_OPS[self._name], a, axis=axis, keepdims=keepdims, initial=initial if initial is not None else ident, sdtype=rnp.bool_ if self._name in _BOOL_RESULT else None)
 
 
-def nan_to_num(a, **kw):
+def nan_to_num(a, copy=True, **kw):
     if kw:
         raise Unsupported("nan_to_num kwargs")
     if not has_sym(a):
-        return plain_call(rnp.nan_to_num, a)
-    return elementwise(sym.s_nan_to_num, a)
+        return plain_call(rnp.nan_to_num, a, copy=copy)
+    res = elementwise(sym.s_nan_to_num, a)
+    if not copy and isinstance(a, rnp.ndarray):
+        # copy=False works in place: the argument itself (possibly a view into a larger array) is overwritten and returned
+        a[...] = res
+        return a
+    return res
 
 
 def sum_(a, axis=None, keepdims=False, **kw):
@@ -1232,6 +1237,8 @@ for _cls in (XR, SInt, SBool):
     _cls.ndim = 0
     _cls.size = 1
     _cls.copy = lambda self: self
+    _cls.setflags = lambda self, write=None, align=None, uic=None: None  # NumPy scalars accept it and are immutable anyway
+    _cls.flags = rnp.float64(0.0).flags
     _cls.item = lambda self: self
     _cls.flatten = lambda self: _scalar_as_array(self).reshape(1)
     _cls.reshape = lambda self, *shape: _scalar_as_array(self).reshape(*shape)
